@@ -5,7 +5,7 @@ interpretation of the MIR for every path and outcome, with the guards on symboli
 (`cursor < len`, `cursor after > cursor before`) kept as labels — are composed with (i) the documented effect of every
 `Editor` operation and (ii) the ECMA-48 effect of every byte sequence written (`codes::*` are read from the facts and
 compared with ECMA-48: CUF = CSI C, CUB = CSI D, EL 2 = CSI 2 K, ICH = CSI @, DCH = CSI P), on *every* synchronised
-start state with up to 3 characters on each side of the cursor (letters and blanks), two prompts, every typed /
+start state with up to 3 (thorough tier: 4) characters on each side of the cursor (letters and blanks), two (three) prompts, every typed /
 recalled / completed text of the model. Every successful word must end synchronised: visible line = prompt + line
 up to trailing blanks, terminal cursor at the editor's cursor. The effects are uniform in the lengths involved, so
 the bound is an enumeration of shapes, not a sample of sessions.
@@ -162,8 +162,10 @@ def run_word(word, status, prompt, a, b, choices):
             elif x in m.vals:
                 val_ = m.vals[x]
             else:
-                raise Infeasible("emptiness of unknown text " + x)
-            if (val_ == '') != (truth == 'T'):
+                # a text the model cannot name (e.g. a trimmed copy of the line): either answer is possible for every
+                # start shape; the path is evaluated under both rather than dropped
+                val_ = None
+            if val_ is not None and (val_ == '') != (truth == 'T'):
                 raise Infeasible(lab)
         elif lab.startswith('IF('):
             body, truth = lab[3:].rsplit('):', 1)
@@ -254,12 +256,16 @@ def check_codes(res, lib):
         rule='C06.codes', key="C06|codes|CRLF", msg="codes::CRLF is %r" % (got,)))
 
 
+DEPTH = 3
+PROMPTS = ('', '$ ')
+
+
 def shapes():
     alpha = ['a', ' ']
     strs = ['']
-    for n in (1, 2, 3):
+    for n in range(1, DEPTH + 1):
         strs += ["".join(t) for t in itertools.product(alpha, repeat=n)]
-    for prompt in ('', '$ '):
+    for prompt in PROMPTS:
         for a in strs:
             for b in strs:
                 yield prompt, a, b
@@ -309,8 +315,11 @@ def check_words(res, cfg, who, words):
         n, prompt, a, b, ch, why = fl[0]
         res.add_violation(dict(
             rule='C06.sync', key="C06|sync|%s|%s" % (who, " ".join(l for l in word if l.startswith(('E.', 'W:', 'IF')))[:160]),
-            msg="%s [%s]: starting from prompt %r, line %r with the cursor after %r%s, the path `%s` ends with %s (%d start states affected)"
-                % (who, cfg, prompt, a + b, a, (" and %s" % ch) if ch else "", " ".join(word), why, len(fl)),
+            msg="%s [%s]: starting from prompt %r, line %r with the cursor after %r%s, the path `%s` ends with %s (%d start states affected%s)"
+                % (who, cfg, prompt, a + b, a, (" and %s" % ch) if ch else "", " ".join(word), why, len(fl),
+                   "; the path is guarded by the emptiness of a text the model cannot name, so some of these start states may be excluded by it"
+                   if any(l.startswith('IF(empty(') and l[9:].split(')')[0] not in ('prompt', 'typed', 'recalled', 'line', 'line_range', 'inserted')
+                          for l in word) else ""),
             who=who, config=cfg, word=" ".join(word), start=dict(prompt=prompt, before=a, after=b, choice=ch), count=len(fl)))
     return nfeasible
 
@@ -319,7 +328,13 @@ def run(ctx, res):
     res.explanation = __doc__
     res.rule_text = ("one obligation per (config, key or API, successful event word, feasible start shape, model choice); "
                      "distinct = (config, key, word)")
+    global DEPTH, PROMPTS
+    # thorough tier, all features on: up to 4 characters on each side of the cursor and a third, longer prompt
+    res.extra['shape_bound'] = {}
     for cfg in ctx.feature_configs():
+        deep = ctx.tier == 'thorough' and cfg == 'default'
+        DEPTH, PROMPTS = (4, ('', '$ ', 'cfg> ')) if deep else (3, ('', '$ '))
+        res.extra['shape_bound'][cfg] = dict(chars_each_side=DEPTH, prompts=list(PROMPTS))
         lib = lib_crate(ctx.crates(cfg))
         check_codes(res, lib)
         ses, words, I = session.process_byte_words(lib)
